@@ -39,6 +39,8 @@ type Prop struct {
 	Watchdog func(tier string) time.Duration
 	// CrashIsViolation: a process-fatal crash inside klog code refutes the property (default true).
 	CrashNotViolation bool
+	// HangIsViolation: a case that also fails to terminate within two minutes when replayed alone refutes the property.
+	HangIsViolation bool
 	// Finish may post-process the aggregated result (e.g. demand that every cell of a fault table was seen).
 	Finish func(agg *Aggregate)
 }
@@ -296,7 +298,27 @@ func runSupervisor(args []string) int {
 				mu.Lock()
 				if status == "timeout" {
 					k.timedOut = true
-					agg.Inconclusive["watchdog fired for a child (wall clock; inconclusive)"]++
+					mu.Unlock()
+					// replay the journaled case alone: a hang reproduces, load does not
+					hung := false
+					if crashedCase >= 0 {
+						hung = replayAlone(exe, *racebin, &c, k, nshards, nrace, crashedCase, 2*time.Minute)
+					}
+					mu.Lock()
+					if hung && p.HangIsViolation {
+						key := "hang: case does not terminate within 2 minutes when run alone"
+						agg.ViolCount[key]++
+						path := filepath.Join(c.replaydir, fmt.Sprintf("%s-seed%d-%s-case%d-hang.json", c.prop, c.seed, c.tier, crashedCase))
+						_ = os.MkdirAll(c.replaydir, 0755)
+						w := map[string]any{"property": c.prop, "key": key, "msg": crashMsg, "seed": c.seed, "tier": c.tier, "case": crashedCase, "shard": k.shard, "nshards": shardsFor(k, nshards, nrace), "race": k.race}
+						b, _ := json.MarshalIndent(w, "", " ")
+						_ = os.WriteFile(path, b, 0644)
+						agg.Violations = append(agg.Violations, Violation{Key: key, Msg: crashMsg, Case: crashedCase, Replay: path})
+					} else if hung {
+						agg.Inconclusive[fmt.Sprintf("case %d does not terminate within 2 minutes even when run alone (watchdog)", crashedCase)]++
+					} else {
+						agg.Inconclusive["watchdog fired for a child (wall clock under load; the interrupted case terminates when run alone)"]++
+					}
 					mu.Unlock()
 					return
 				}
@@ -629,19 +651,11 @@ func launch(exe, racebin string, c *commonFlags, k *childState, nshards, nrace i
 			_ = cmd.Process.Kill()
 			<-done
 		}
-		return 0, "", "", false, "timeout"
+		cc, msg := readJournal(k.dir)
+		return cc, msg, "", false, "timeout"
 	}
 	// crashed: find the fatal case and the panic message
-	crashedCase = -1
-	if b, err := os.ReadFile(filepath.Join(k.dir, "current.bin")); err == nil && len(b) >= 16 {
-		crashedCase = int64(binary.LittleEndian.Uint64(b[0:]))
-		ln := int(binary.LittleEndian.Uint64(b[8:]))
-		if ln > len(b)-16 {
-			ln = len(b) - 16
-		}
-		inp := b[16 : 16+ln]
-		crashMsg = fmt.Sprintf("fatal case input (%d bytes): %q\n", ln, truncateBytes(inp, 2000))
-	}
+	crashedCase, crashMsg = readJournal(k.dir)
 	ob, _ := os.ReadFile(outf.Name())
 	out := string(ob)
 	tail := out
@@ -658,6 +672,48 @@ func launch(exe, racebin string, c *commonFlags, k *childState, nshards, nrace i
 	inKlog = strings.Contains(tail, "github.com/jotaen/klog/")
 	crashMsg += firstLines(tail, 40)
 	return crashedCase, crashMsg, crashSite, inKlog, "crashed"
+}
+
+func readJournal(dir string) (int64, string) {
+	if b, err := os.ReadFile(filepath.Join(dir, "current.bin")); err == nil && len(b) >= 16 {
+		c := int64(binary.LittleEndian.Uint64(b[0:]))
+		ln := int(binary.LittleEndian.Uint64(b[8:]))
+		if ln > len(b)-16 {
+			ln = len(b) - 16
+		}
+		inp := b[16 : 16+ln]
+		return c, fmt.Sprintf("journaled case input (%d bytes): %q\n", ln, truncateBytes(inp, 2000))
+	}
+	return -1, ""
+}
+
+// replayAlone re-executes one case in a fresh child; true = it did not finish within the limit.
+func replayAlone(exe, racebin string, c *commonFlags, k *childState, nshards, nrace int, cs int64, limit time.Duration) bool {
+	bin, n := exe, nshards
+	if k.race {
+		bin, n = racebin, nrace
+	}
+	dir := k.dir + "-alone"
+	_ = os.MkdirAll(dir, 0755)
+	args := []string{"child", "--prop", c.prop, "--tier", c.tier, "--seed", strconv.FormatUint(c.seed, 10), "--shard", strconv.Itoa(k.shard), "--nshards", strconv.Itoa(n),
+		"--dir", dir, "--klogbin", c.klogbin, "--replaydir", filepath.Join(dir, "replay"), "--only", strconv.FormatInt(cs, 10)}
+	if k.race {
+		args = append(args, "--race")
+	}
+	cmd := exec.Command(bin, args...)
+	if err := cmd.Start(); err != nil {
+		return false
+	}
+	done := make(chan error, 1)
+	go func() { done <- cmd.Wait() }()
+	select {
+	case <-done:
+		return false
+	case <-time.After(limit):
+		_ = cmd.Process.Kill()
+		<-done
+		return true
+	}
 }
 
 func truncateBytes(b []byte, n int) []byte {
